@@ -93,7 +93,7 @@ STATE_VARIABLE_TYPE_MAPPING: Mapping[str, Mapping[str, Callable]] = {
         "type": time,
         "validator": require_tzinfo,
         "in": parse_date_time,
-        "out": lambda t: t.isoformat("T", "seconds"),
+        "out": lambda t: t.isoformat("seconds"),
     },
 }
 
